@@ -201,6 +201,7 @@ func checkC07(c *Ctx) {
 	c07R4(c)
 	removeAuthgrantsRule(c, "C07.R5")
 	c07R6(c)
+	c07R7(c)
 }
 
 func c07R1(c *Ctx) {
@@ -898,4 +899,71 @@ func c07R6(c *Ctx) {
 	if n == 0 {
 		c.OK(rule, "in-place-filter:none", "-", "no in-place filter of a grant list in hopserver / authgrants")
 	}
+}
+
+// c07R7: a stored grant is what was issued. The window, kind and command of a grant are fixed when the
+// target accepted the intent; checkCmd judges requests against the stored values. Nothing may rewrite the
+// fields of a stored Authgrant: they are set where the grant is constructed (a composite literal / a fresh
+// object in that function) and nowhere else. Merging "repeated" grants by widening a stored window makes
+// the delegate's command valid at times for which no grant was issued.
+func c07R7(c *Ctx) {
+	P := c.P
+	const rule = "C07.R7"
+	c.Rule(rule, "a stored grant is what was issued: the fields of authgrants.Authgrant are written only where a grant is constructed (fresh object), never on a stored element (widening a stored window authorises the command at times for which no grant was issued) (E4 who-may-write)")
+	pkg := P.Pkg("authgrants")
+	if pkg == nil {
+		c.Undecided(rule, "authgrants", "package not found")
+		return
+	}
+	obj := pkg.Pkg.Scope().Lookup("Authgrant")
+	if obj == nil {
+		c.Undecided(rule, "authgrants.Authgrant", "type not found")
+		return
+	}
+	st, ok := obj.Type().Underlying().(*types.Struct)
+	if !ok {
+		c.Undecided(rule, "authgrants.Authgrant", "not a struct")
+		return
+	}
+	isGrantField := func(f *types.Var) bool {
+		for i := 0; i < st.NumFields(); i++ {
+			if st.Field(i) == f {
+				return true
+			}
+		}
+		return false
+	}
+	n := 0
+	for _, f := range P.ModuleFuncs() {
+		if f.Blocks == nil {
+			continue
+		}
+		k := 0
+		eachInstr(f, func(ins ssa.Instruction) {
+			s, ok := ins.(*ssa.Store)
+			if !ok {
+				return
+			}
+			fa, ok := s.Addr.(*ssa.FieldAddr)
+			if !ok || !isGrantField(fieldOf(fa.X.Type(), fa.Field)) {
+				return
+			}
+			n++
+			k++
+			root, _ := accessPath(fa.X)
+			_, fresh := lookThrough(root).(*ssa.Alloc)
+			if a, isAlloc := root.(*ssa.Alloc); isAlloc {
+				fresh = true
+				// a local that holds a copy of / pointer to a stored element is not construction
+				if sv := singleStore(a); sv != nil {
+					switch strip(sv).(type) {
+					case *ssa.UnOp, *ssa.IndexAddr, *ssa.Lookup, *ssa.Parameter:
+						fresh = false
+					}
+				}
+			}
+			c.Check(fresh, rule, fmt.Sprintf("%s#grant-field-store%d", FuncName(f), k), P.InstrPos(ins), "set at construction", "a field of an existing Authgrant is rewritten: the stored grant no longer is what the target accepted (its window or command can be widened after the fact)")
+		})
+	}
+	c.Floor(rule, "stores to Authgrant fields", n, 3)
 }
